@@ -1,0 +1,8 @@
+//go:build verif
+
+package server
+
+import "github.com/avos-io/goat/verifhook"
+
+func vEmit(ev string, obj any, id uint64, n int, s string) { verifhook.Emit(ev, obj, id, n, s) }
+func vGate(name string, obj any, id uint64)                { verifhook.Gate(name, obj, id) }
